@@ -277,6 +277,15 @@ func familySignatureShape(thorough bool) map[string]interface{} {
 				for n := 1; n <= max; n++ {
 					cases = append(cases, shapeCase{si, ki, ci, n})
 				}
+				if shapeNames[si] == "wide" {
+					// widths around the word sizes a per-member bit set or
+					// counter could have (the deep shapes stay below max)
+					for _, n := range []int{63, 64, 65, 66, 127, 128, 129, 255, 256, 257} {
+						if n > max {
+							cases = append(cases, shapeCase{si, ki, ci, n})
+						}
+					}
+				}
 			}
 		}
 	}
